@@ -155,6 +155,23 @@ func (p c01) Run(w *mon.Worker, idx int) mon.Result {
 			}
 		}
 	}
+	// the same program with only the brackets the precedence table requires means the same (observed on yq alone)
+	if idx%4 == 1 {
+		if minExpr := e.StringMin(); minExpr != expr {
+			out2, yerr2, pan2 := yqx.Eval(minExpr, docText+"\n", "yaml", "json")
+			res.Evals++
+			res.Tags = append(res.Tags, "minimal_brackets")
+			if pan2 != nil {
+				yerr2 = fmt.Errorf("panic: %s", pan2.Sig())
+			}
+			if (yerr2 != nil) != (yerr != nil) || (yerr == nil && out2 != out) {
+				res.Verdict = mon.Violated
+				res.Detail = fmt.Sprintf("the program means something else without its redundant brackets\n bracketed: %s\n   -> err=%v %s\n minimal:   %s\n   -> err=%v %s", expr, yerr, clipStr(out, 300), minExpr, yerr2, clipStr(out2, 300))
+				res.Case = map[string]any{"expr": expr, "minimal": minExpr, "doc": docText}
+				return res
+			}
+		}
+	}
 	nops := 0
 	e.Walk(func(*ref.Expr) { nops++ })
 	switch {
